@@ -160,6 +160,7 @@ def whyName : Why → String
   | .notUpgraded => "not-upgraded"
   | .currentFileChanged => "current-file-changed"
   | .pathDependent => "path-dependent"
+  | .pathDependentFloat => "path-dependent:integral-float"
   | .settingLost 0 => "setting-lost"
   | .settingLost s => "setting-lost-step" ++ toString s
 
